@@ -1,6 +1,7 @@
 import MpfVerif.Lemmas.Light
 import MpfVerif.Lemmas.LightHw
 import MpfVerif.Lemmas.BatchLight
+import MpfVerif.Lemmas.LightOut
 /-!
 # C09 — Light hardware output equals the priority stack's colour
 
@@ -209,6 +210,191 @@ theorem batch_quiescent_output (ops : List Batch.Op) (l : Nat)
     rw [ha, hi, hl] at h2
     simpa [Batch.lastIn, Batch.pick3] using h2
 
+
+/-! ### hardware-fading back ends, RGBW / brightness / correction inside the model, batch grouping -/
+
+/-- The stepping task of `LightPlatformDirectFade._fade` with `max_fade_ms = M` (software fade: `M = 0`; hardware that
+fades by itself: `M > 0`), for every sequence of `set_fade` commands and task resumptions: whatever a resumption hands
+to the hardware belongs to the channel's *latest* command `m` (never to a replaced fade), asks for at most the hardware's
+maximum fade, and lies on the logical fade: an intermediate step tells the hardware to reach, `M` from now, the brightness
+the line `(m.st, m.sb) — (T, m.tb)` has at that instant; the final step carries the target brightness and exactly the
+remaining time, and leaves no task behind.  (Fade durations in units of 1/8000 ms: one tick = 1000000.)  With `M > 0` the
+code as it is starts this task only for absurdly long fades (see `hw_fade_set_direct`); the theorem is about the function
+for all inputs. -/
+theorem hw_fade_step_on_latest_line (M : Nat) (ops : List COp) (now iv : Nat) (r : Chan × Nat × Nat × Bool)
+    (hr : (crun { maxFade := M } ops).stepTask now iv = some r) :
+    ∃ m T, (crun { maxFade := M } ops).cmd = some m ∧ m.tt = some T ∧ r.1.lastF ≤ 1000000 * M ∧
+      r.1.lastB = (r.2.1, r.2.2.1) ∧
+      (r.2.2.2 = false → now + M < T ∧ r.1.lastF = 1000000 * M ∧ r.2.2.1 = 255 * (T - m.st) ∧
+        r.2.1 = lineNum m.sb m.st m.tb T (now + M) ∧ r.2.1 ≤ r.2.2.1) ∧
+      (r.2.2.2 = true → T ≤ now + M ∧ r.1.lastF = 1000000 * (T - now) ∧ (r.2.1, r.2.2.1) = (m.tb, 255) ∧
+        r.1.tasks = []) := by
+  have hok : ChanOK (crun { maxFade := M } ops) := (crun_inv ops _ ⟨⟨by simp, Or.inl rfl⟩, by intro _ m h; simp at h⟩).1
+  obtain ⟨m, T, h1, h2, h3, h4, h5, h6⟩ := stepTask_line _ now iv r hok hr
+  rw [crun_maxFade] at h3 h5 h6
+  refine ⟨m, T, h1, h2, h3, h4, ?_, h6⟩
+  intro hf
+  obtain ⟨a, b, c, d⟩ := h5 hf
+  refine ⟨a, b, c, d, ?_⟩
+  rw [d, c]
+  exact clampI_le _ _
+
+/-- `LightPlatformDirectFade.set_fade` as the code is: the stepping task is started exactly when
+`(target_time - now) / 1000.0` (seconds / 1000) exceeds `max_fade_ms`, i.e. when `T - now > 1000000 * maxFade` ticks — for
+a software fade whenever the fade has time left, for a hardware-fading light practically never; in every other case the
+target brightness is handed over at once (so at rest the last commanded brightness is the target — the clause of C09),
+with the fade duration the code computes, `T - now` units of 1/8000 ms instead of `1000000 * (T - now)`: the hardware is
+told to jump (D30, observed; outside the property). -/
+theorem hw_fade_set_direct (c : Chan) (now : Nat) (m : Cmd) :
+    ((c.setFade now m).2 = false →
+      (c.setFade now m).1.lastB = (m.tb, 255) ∧
+      (∀ T, m.tt = some T → T ≤ now + 1000000 * c.maxFade ∧ (c.setFade now m).1.lastF = T - now) ∧
+      (m.tt = none → (c.setFade now m).1.lastF = 0)) ∧
+    ((c.setFade now m).2 = true → ∃ T, m.tt = some T ∧ now + 1000000 * c.maxFade < T) := by
+  unfold Chan.setFade
+  cases hm : m.tt with
+  | none => simp
+  | some T =>
+    simp only
+    split
+    · rename_i h; simp [h]
+    · rename_i h; simp; omega
+
+/-- RGBW channel mapping (`rgbw_white_behavior`): for every colour with components `≤ 255` all four channels stay within
+`0..255`; with `duck_rgb` the common part moves to the white channel — white plus each colour channel reproduces the
+colour, white is the minimum and one colour channel is 0; with `white_only` likewise white plus channel reproduces the
+colour (a pure grey is white only, anything else uses no white); with `min_rgb` the colour channels are the colour itself
+and white duplicates the minimum. -/
+theorem rgbw_sum_preserved (style : Nat) (c : RGB) (h : c.1 ≤ 255 ∧ c.2.1 ≤ 255 ∧ c.2.2 ≤ 255) :
+    ((rgbw style c).1 ≤ 255 ∧ (rgbw style c).2.1 ≤ 255 ∧ (rgbw style c).2.2.1 ≤ 255 ∧ (rgbw style c).2.2.2 ≤ 255) ∧
+    (style = 1 → (rgbw style c).1 + (rgbw style c).2.2.2 = c.1 ∧ (rgbw style c).2.1 + (rgbw style c).2.2.2 = c.2.1 ∧
+      (rgbw style c).2.2.1 + (rgbw style c).2.2.2 = c.2.2 ∧ (rgbw style c).2.2.2 = minC c ∧
+      min (rgbw style c).1 (min (rgbw style c).2.1 (rgbw style c).2.2.1) = 0) ∧
+    (style = 2 → (rgbw style c).1 + (rgbw style c).2.2.2 = c.1 ∧ (rgbw style c).2.1 + (rgbw style c).2.2.2 = c.2.1 ∧
+      (rgbw style c).2.2.1 + (rgbw style c).2.2.2 = c.2.2) ∧
+    (style ≠ 1 → style ≠ 2 → ((rgbw style c).1, (rgbw style c).2.1, (rgbw style c).2.2.1) = c ∧
+      (rgbw style c).2.2.2 = minC c) := by
+  obtain ⟨r, g, b⟩ := c
+  simp only at h
+  refine ⟨?_, ?_, ?_, ?_⟩
+  · unfold rgbw minC
+    simp only
+    split
+    · simp only; omega
+    · split
+      · split <;> simp only <;> omega
+      · simp only; omega
+  · intro hs; subst hs
+    simp [rgbw, minC]
+    omega
+  · intro hs; subst hs
+    simp only [rgbw, minC]
+    split
+    · rename_i h1; simp at h1
+    · simp only [if_true]
+      split
+      · rename_i h2; simp only; omega
+      · simp
+  · intro h1 h2
+    simp [rgbw, minC, h1, h2]
+
+/-- Brightness factor and colour correction as applied before the channel split: the brightness factor (`q/4 ≤ 1`) is
+monotone in every component, never brightens, and maps black to black; hence for a light without correction profile the
+hardware target of black is black and a brighter logical component never gives a darker hardware component.  For a
+profile table the same holds exactly when the table is monotone and maps 0 to 0 — which is checked on the configured
+table by the harness (it is *not* true of every table `generate_from_parameters` produces: see the report). -/
+theorem brightness_monotone_black (q : Nat) (hq : q ≤ 4) (x y : RGB) :
+    outC [] q off = off ∧
+    (x.1 ≤ y.1 → (outC [] q x).1 ≤ (outC [] q y).1) ∧ (x.2.1 ≤ y.2.1 → (outC [] q x).2.1 ≤ (outC [] q y).2.1) ∧
+    (x.2.2 ≤ y.2.2 → (outC [] q x).2.2 ≤ (outC [] q y).2.2) ∧
+    ((outC [] q x).1 ≤ x.1 ∧ (outC [] q x).2.1 ≤ x.2.1 ∧ (outC [] q x).2.2 ≤ x.2.2) := by
+  have hid : ∀ c : RGB, outC [] q c = gammaC q c := by intro c; simp [outC, corrC]
+  rw [hid, hid, hid]
+  refine ⟨?_, (gammaC_mono q x y).1, (gammaC_mono q x y).2.1, (gammaC_mono q x y).2.2, gammaC_le q hq x⟩
+  unfold gammaC off
+  split <;> simp
+
+/-- `Light.on(brightness)` never exceeds the configured `default_on_color`, full brightness gives exactly that colour and
+brightness 0 gives black. -/
+theorem on_color_within_default (c : RGB) (b : Nat) (hb : b ≤ 255) (hc : c.1 ≤ 255 ∧ c.2.1 ≤ 255 ∧ c.2.2 ≤ 255) :
+    ((mulC c b).1 ≤ c.1 ∧ (mulC c b).2.1 ≤ c.2.1 ∧ (mulC c b).2.2 ≤ c.2.2) ∧ mulC c 255 = c ∧ mulC c 0 = off := by
+  obtain ⟨r, g, bl⟩ := c
+  simp only at hc
+  have key : ∀ x : Nat, x * b / 255 ≤ x := fun x =>
+    Nat.le_trans (Nat.div_le_div_right (Nat.mul_le_mul_left x hb)) (by omega)
+  refine ⟨⟨?_, ?_, ?_⟩, ?_, ?_⟩
+  · exact Nat.le_trans (Nat.min_le_left _ _) (key r)
+  · exact Nat.le_trans (Nat.min_le_left _ _) (key g)
+  · exact Nat.le_trans (Nat.min_le_left _ _) (key bl)
+  · simp only [mulC, Nat.mul_div_cancel _ (by decide : 0 < 255)]
+    simp [Nat.min_eq_left hc.1, Nat.min_eq_left hc.2.1, Nat.min_eq_left hc.2.2]
+  · simp [mulC, off]
+
+/-- Batched back end with hardware fades — the computation of `get_fade_and_brightness` with `max_fade_ms = m` (the path
+taken whenever the light's target is not cached; the cache, which answers a repeated call with fade 0 — D31, observed,
+outside the property — is `Batch.fdOf` and does not change the brightness): for
+every fade, instant and hardware maximum the (brightness, fade) pair never asks for more than the maximum;
+when the fade ends within the maximum it is the target brightness with exactly the remaining time (and the light is done);
+otherwise it is the maximum fade together with the brightness the logical fade has at `now + m`, and the light is
+re-scheduled. -/
+theorem batch_hw_pair_on_line (f : Batch.Fade) (now m : Nat) :
+    Batch.fadeAt f now m ≤ m ∧
+    (∀ tt, f.tt = some tt → now + m < tt →
+      Batch.brightnessAt f now m =
+        (((((f.sb : Int) * ((tt : Int) - f.st) + ((f.tb : Int) - f.sb) * ((now : Int) + m - f.st))).toNat, 255 * (tt - f.st)), false) ∧
+      Batch.fadeAt f now m = m) ∧
+    (∀ tt, f.tt = some tt → tt ≤ now + m → Batch.brightnessAt f now m = ((f.tb, 255), true) ∧ Batch.fadeAt f now m = tt - now) ∧
+    (f.tt = none → Batch.brightnessAt f now m = ((f.tb, 255), true) ∧ Batch.fadeAt f now m = 0) := by
+  refine ⟨Batch.fadeAt_le f now m, ?_, ?_, ?_⟩
+  · intro tt h1 h2; simp [Batch.brightnessAt, Batch.fadeAt, h1, h2]
+  · intro tt h1 h2
+    have : ¬ now + m < tt := by omega
+    simp [Batch.brightnessAt, Batch.fadeAt, h1, this]
+  · intro h1; simp [Batch.brightnessAt, Batch.fadeAt, h1]
+
+/-- Grouping of one round into callback lists (`_send_updates` / `_send_update_batch`): whatever the batch size, the
+fade tolerance and the fades, concatenating the lists gives back exactly the queued lights in order — every one once,
+none dropped, none duplicated, each with its own entry — and every list is non-empty, no longer than the batch size and
+made of successive channel numbers. -/
+theorem batch_grouping_exact (mb tol : Nat) (xs : List (Nat × Nat)) :
+    (Batch.group mb tol xs [] 0).flatten = xs ∧
+    ∀ g ∈ Batch.group mb tol xs [] 0, g ≠ [] ∧ g.length ≤ max mb 1 ∧ Batch.SeqRev g.reverse := by
+  refine ⟨by simpa using Batch.group_flatten mb tol xs [] 0, ?_⟩
+  exact Batch.group_bounds mb tol xs [] 0 trivial (by simp)
+
+/-- Every dirty channel is sent exactly once per round, whatever the grouping: for *every* interleaving of commands,
+scheduler iterations, computations, callback starts (at any point: `flush`, `flushKeep`) and completions, the lights
+handed to the callback in the current round plus the open list are, in order, exactly the lights of the taken dirty set
+that have been processed and not skipped as already transmitted; processed and still pending lights together are the
+taken set, which has no duplicates.  So when the round is over (`pending = []`, `acc = []`) the callbacks of the round
+have carried every non-skipped dirty light exactly once. -/
+theorem batch_round_exactly_once (ops : List Batch.Op) :
+    let s := Batch.run {} ops
+    ((s.roundSent.flatten ++ s.acc).map (·.1) = (s.roundDone.filter (fun x => !x.2)).map (·.1)) ∧
+    s.roundDone.map (·.1) ++ s.pending = s.taken ∧ s.taken.Pairwise (· < ·) ∧
+    (s.pending = [] → s.acc = [] →
+      (s.roundSent.flatten.map (·.1)).Pairwise (· < ·) ∧
+      ∀ l, l ∈ s.roundSent.flatten.map (·.1) ↔ (l, false) ∈ s.roundDone) := by
+  have h := Batch.run_R ops {} Batch.init_R
+  obtain ⟨h1, h2, h3, _, h5⟩ := h
+  refine ⟨by rw [h1, h3], h2, h5, ?_⟩
+  intro hp ha
+  rw [ha, List.append_nil] at h1
+  rw [hp, List.append_nil] at h2
+  rw [h1, h3]
+  constructor
+  · have : ((Batch.run {} ops).roundDone.map (·.1)).Pairwise (· < ·) := by rw [h2]; exact h5
+    have hsub : (List.map (fun x => x.1) (List.filter (fun x => !x.2) (Batch.run {} ops).roundDone)).Sublist
+        ((Batch.run {} ops).roundDone.map (·.1)) := List.Sublist.map _ List.filter_sublist
+    exact List.Pairwise.sublist hsub this
+  · intro l
+    simp only [List.mem_map, List.mem_filter]
+    constructor
+    · rintro ⟨⟨a, b⟩, ⟨hm, hb⟩, rfl⟩
+      have : b = false := by simpa using hb
+      subst this; exact hm
+    · intro hm; exact ⟨(l, false), ⟨hm, by simp⟩, rfl⟩
+
 /-! ### the hypotheses are satisfiable on non-trivial states (kernel evaluation) -/
 
 def exOps : List Op :=
@@ -234,5 +420,25 @@ def exOps3 : List Op :=
 
 example : ((run {} exOps3).stack.filter (fun e => e.destC.isNone)).length = 3 ∧ (run {} exOps3).timers.length = 3 := by decide
 example : (run {} (exOps3 ++ [.adv 13, .fire 2, .adv 16, .fire 3, .adv 17, .fire 1])).stack = [] := by decide
+
+/-- the code as it is: a 2 s fade on hardware that fades at most 0.5 s on its own is handed over at once as the target (D30) -/
+example : (crun { maxFade := 4 } [.set 8 ⟨0, 8, 255, some 24⟩]).lastB = (255, 255) ∧
+    (crun { maxFade := 4 } [.set 8 ⟨0, 8, 255, some 24⟩]).lastF = 16 ∧
+    (crun { maxFade := 4 } [.set 8 ⟨0, 8, 255, some 24⟩]).tasks = [] := by decide
+/-- the stepping task with a hardware maximum (reached only by a fade longer than 1000000 ticks per tick of maximum) -/
+example : (crun { maxFade := 1 } [.set 0 ⟨0, 0, 255, some 4000000⟩, .tick 0 1]).lastF = 1000000 ∧
+    (crun { maxFade := 1 } [.set 0 ⟨0, 0, 255, some 4000000⟩, .tick 0 1]).lastB = (255, 255 * 4000000) ∧
+    (crun { maxFade := 1 } [.set 0 ⟨0, 0, 255, some 4000000⟩, .tick 0 1]).tasks.length = 1 := by decide
+/-- the batch cache as it is (D31): a light computed twice without a new command answers fade 0 the second time -/
+example : Batch.fdOf (Batch.run { maxFade := 200 } [.adv 16, .mark 0 ⟨0, 16, 255, some 48⟩, .compute 0, .flush, .delivered]) 0 = 0 ∧
+    Batch.fdOf (Batch.run { maxFade := 200 } [.adv 16, .mark 0 ⟨0, 16, 255, some 48⟩]) 0 = 32 := by decide
+example : rgbw 1 (200, 120, 50) = (150, 70, 0, 50) ∧ rgbw 2 (77, 77, 77) = (0, 0, 0, 77) ∧ rgbw 0 (200, 120, 50) = (200, 120, 50, 50) := by
+  decide
+/-- channels 10-13, 15 and 20-21 dirty, batch size 3, equal fades: lists [10,11,12] [13] [15] [20,21] -/
+example : (Batch.group 3 2 [(10, 0), (11, 0), (12, 0), (13, 0), (15, 0), (20, 0), (21, 0)] [] 0).map (fun g => g.map (·.1)) =
+    [[10, 11, 12], [13], [15], [20, 21]] := by decide
+/-- a round with a skipped light and a list that overflowed: both lights computed and not skipped were sent once -/
+example : ((Batch.run { maxBatch := 1 } [.adv 16, .mark 0 ⟨0, 0, 255, none⟩, .mark 1 ⟨0, 0, 128, none⟩, .compute 0, .compute 1,
+    .flushKeep, .delivered, .flush, .delivered]).roundSent.flatten.map (·.1)) = [0, 1] := by decide
 
 end MpfVerif.C09
